@@ -112,3 +112,38 @@ def _(self, command):
             tag="failures-reported-to-the-controller", top=True)
     may_raise(Exception, True)   # only from buf.close() in the finally block
     modifies("events")
+
+
+# ---- maybe_clean: a transfer's future leaves the bookkeeping only after it was dealt with ---------------------------------------------
+field_types("cascade.executor.data_server:DataServer", futs_in_progress="dict[DatasetTransmitCommand | DatasetTransmitPayload, JobFuture]",
+            awaiting_confirmation="dict[int, tuple[DatasetTransmitCommand, int]]", cap="int")
+stub_class("JobFuture")   # concurrent.futures.Future as seen by the data server
+external_returns(done="bool")
+pure_external_method("JobFuture.result", returns="int")          # of a future that is done: what the job returned (send_payload / store_payload return a time)
+pure_external_method("JobFuture.exception")                      # of a future that is done: what the job raised, or None
+
+
+@contract("cascade.executor.data_server:DataServer.maybe_clean")
+def _(self):
+    futs = self.futs_in_progress
+    conf = self.awaiting_confirmation
+    requires(self.cap >= 1)
+    # transfer indices identify commands (the bridge hands out a fresh index per command; a retry re-submits the SAME command)
+    requires(forall(DatasetTransmitCommand, DatasetTransmitCommand, lambda k1, k2: implies(k1 in futs and k2 in futs and k1 != k2, k1.idx != k2.idx)))
+    # "even if payloads or confirmations are lost ... or retried": a send whose future is taken off the books WITHOUT an error must have its
+    # completion time recorded under its transfer index - that record is what the retry pass of recv_loop works from; a future is never
+    # dropped unseen
+    ensures(forall(DatasetTransmitCommand, lambda k: implies(old(k in futs) and k not in futs and old(futs[k]).exception() is None,
+                                                             k.idx in conf and conf[k.idx] == (k, old(futs[k]).result()))),
+            tag="completed-send-is-recorded-for-confirmation", top=True)
+    ensures(len(futs) < self.cap, tag="returns-with-room-for-a-new-job")
+    ensures(forall(Any, lambda k: implies(k in futs, old(k in futs) and same(futs[k], old(futs[k])))), tag="no-future-appears")
+    invariant(0, forall(Any, lambda k: implies(k in futs, old(k in futs) and same(futs[k], old(futs[k])))))
+    invariant(0, forall(DatasetTransmitCommand, lambda k: implies(old(k in futs) and k not in futs and old(futs[k]).exception() is None,
+                                                                  k.idx in conf and conf[k.idx] == (k, old(futs[k]).result()))))
+    invariant(1, forall(Any, lambda k: implies(k in futs, old(k in futs) and same(futs[k], old(futs[k])))))
+    invariant(1, forall(DatasetTransmitCommand, lambda k: implies(old(k in futs) and k not in futs and old(futs[k]).exception() is None,
+                                                                  k.idx in conf and conf[k.idx] == (k, old(futs[k]).result()))))
+    invariant(1, forall(int, lambda i: implies(loop1_index <= i and i < len(keys), keys[i] in futs)))
+    invariant(1, forall(int, int, lambda i, j: implies(0 <= i and i < j and j < len(keys), keys[i] != keys[j])))
+    modifies(self.futs_in_progress, self.awaiting_confirmation, "events")
